@@ -164,20 +164,78 @@ def rule_dryrun_flow(ctx, px):
                 ctx.ob(R, f.module.rel, f"{f.short} -> {g.short}(is_dryrun=<default>)", default_ok,
                        "default (False) is a real run" if default_ok else "CLI call site relies on the default", c.lineno)
                 continue
-            txt = ast.unparse(val)
-            ok = txt in ("is_dryrun", "True", "self._args.dry_run")
+            txt = ast.unparse(pyfront.subst_locals(f.node, val))
+            own = "is_dryrun" in [a.arg for a in f.node.args.args + f.node.args.kwonlyargs]
+            # a function that receives the mode forwards it (or forces a dry run); only a function without the parameter may read the CLI flag
+            ok = txt in (("is_dryrun", "True") if own else ("True", "self._args.dry_run"))
             ctx.ob(R, f.module.rel, f"{f.short} -> {g.short}(is_dryrun={txt})", ok,
-                   "" if ok else "is_dryrun argument is derived, not forwarded", c.lineno)
+                   "" if ok else ("the function's own is_dryrun parameter is not what is forwarded: a caller asking for a dry run gets a real one"
+                                  if own else "is_dryrun argument is derived, not forwarded"), c.lineno)
     ctx.floor(R + ":calls", n, 8)
 
 
-def _gen_calls(f, attr_recv, meth):
-    """(call, guard terms) for self.<attr_recv>.<meth>(...) calls in f."""
+class _Bind(ast.NodeTransformer):
+    def __init__(self, env):
+        self.env = env
+
+    def visit_Name(self, node):
+        if isinstance(node.ctx, ast.Load) and node.id in self.env:
+            import copy
+            return copy.deepcopy(self.env[node.id])
+        return node
+
+
+def _norm_expr(func_node, e, env):
+    """expression with single-assignment locals inlined and the parameters of a followed helper bound to the caller's arguments"""
+    import copy
+    out = pyfront.subst_locals(func_node, e)
+    if env:
+        out = _Bind(env).visit(copy.deepcopy(out))
+        if isinstance(out, ast.Name) and out.id in env:
+            out = copy.deepcopy(env[out.id])
+    return ast.fix_missing_locations(out)
+
+
+class GenCall:
+    def __init__(self, call, guards, func_node, env, chain):
+        self.call, self.guards, self.func_node, self.env, self.chain = call, guards, func_node, env, chain
+        self.lineno = call.lineno
+
+    def kw(self, name, pos=None):
+        kws = pyfront.call_keywords(self.func_node, self.call)
+        v = kws.get(name)
+        if v is None and pos is not None and pos < len(self.call.args):
+            v = self.call.args[pos]
+        if v is None:
+            return None
+        return ast.unparse(_norm_expr(self.func_node, v, self.env))
+
+
+def _gen_calls(f, attr_recv, meth, env=None, guards=(), depth=2, chain=()):
+    """GenCall for every self.<attr_recv>.<meth>(...) call of f and of the private methods of the same class that f calls (their
+    parameters bound to the call's arguments, their guards conjoined): a listing mode implemented as a dry run of the generating
+    routine is followed into that routine."""
+    env = env or {}
     out = []
     for st, g in pyfront.walk_guarded(f.node.body):
+        here = guards + tuple((_norm_expr(f.node, t, env), p) for t, p in g)
         for c in pyfront.expr_calls(st):
             if isinstance(c.func, ast.Attribute) and c.func.attr == meth and ast.unparse(c.func.value) == attr_recv:
-                out.append((c, tuple(sorted(pyfront.guard_terms(g)))))
+                out.append(GenCall(c, tuple(sorted(set(pyfront.guard_terms(here)))), f.node, env, chain + (f.short,)))
+            elif depth > 0 and isinstance(c.func, ast.Attribute) and isinstance(c.func.value, ast.Name) and c.func.value.id == "self" \
+                    and f.cls is not None and c.func.attr in f.cls.methods and c.func.attr.startswith("_") and c.func.attr != f.node.name:
+                h = f.cls.methods[c.func.attr]
+                hp = [a.arg for a in h.node.args.args][1:]
+                henv = {}
+                defaults = h.node.args.defaults
+                for i, d in enumerate(defaults):
+                    henv[hp[len(hp) - len(defaults) + i]] = d
+                for a, d in zip(h.node.args.kwonlyargs, h.node.args.kw_defaults):
+                    if d is not None:
+                        henv[a.arg] = d
+                for name, a in list(zip(hp, c.args)) + [(k, v) for k, v in pyfront.call_keywords(f.node, c).items()]:
+                    henv[name] = _norm_expr(f.node, a, env)
+                out.extend(_gen_calls(h, attr_recv, meth, henv, here, depth - 1, chain + (f.short,)))
     return out
 
 
@@ -243,18 +301,21 @@ def rule_list_sibling(ctx, px):
         i_calls = _gen_calls(li, recv, "get_templates")
         if len(g_calls) != 1:
             raise AnalysisError(f"anchor missing: exactly one {recv}.generate_all call expected in _generate, found {len(g_calls)}")
-        gc, gg = g_calls[0]
+        gc = g_calls[0]
+        gg = gc.guards
         ok = len(l_calls) == 1
         ctx.ob(R, lo.module.rel, f"{lo.short}: one {recv}.generate_all call", ok, "" if ok else f"found {len(l_calls)}", lo.node.lineno)
         n += 1
         if ok:
-            lc, lg = l_calls[0]
+            lc = l_calls[0]
+            lg = lc.guards
             ctx.ob(R, lo.module.rel, f"{lo.short}/{recv}: same condition as _generate", lg == gg,
                    "" if lg == gg else f"listing runs under {list(lg)} but generation under {list(gg)}", lc.lineno)
-            d = _kw(lc, "is_dryrun", 0, lo.node)
-            ctx.ob(R, lo.module.rel, f"{lo.short}/{recv}: is_dryrun=True", d == "True", "" if d == "True" else f"is_dryrun={d}", lc.lineno)
+            d = lc.kw("is_dryrun", 0)
+            ctx.ob(R, lo.module.rel, f"{lo.short}/{recv}: is_dryrun=True", d == "True",
+                   "" if d == "True" else f"is_dryrun={d} on the listing path {' -> '.join(lc.chain)}: a listing run writes files", lc.lineno)
             for arg, pos in (("omit_serialization_support", 2),):
-                a, b = _kw(lc, arg, pos, lo.node), _kw(gc, arg, pos, gen.node)
+                a, b = lc.kw(arg, pos), gc.kw(arg, pos)
                 if not _set_determining(px, recv_cls[recv], arg):
                     ctx.ob(R, lo.module.rel, f"{lo.short}/{recv}: {arg} as in _generate", True,
                            f"{recv_cls[recv]}.generate_all uses {arg} only for update_nunavut_globals (file content, "
@@ -266,10 +327,11 @@ def rule_list_sibling(ctx, px):
         ok = len(i_calls) == 1
         ctx.ob(R, li.module.rel, f"{li.short}: one {recv}.get_templates call", ok, "" if ok else f"found {len(i_calls)}", li.node.lineno)
         if ok:
-            ic, ig = i_calls[0]
+            ic = i_calls[0]
+            ig = ic.guards
             ctx.ob(R, li.module.rel, f"{li.short}/{recv}: same condition as _generate", ig == gg,
                    "" if ig == gg else f"template listing runs under {list(ig)} but generation under {list(gg)}", ic.lineno)
-            a, b = _kw(ic, "omit_serialization_support", 0, li.node), _kw(gc, "omit_serialization_support", 2, gen.node)
+            a, b = ic.kw("omit_serialization_support", 0), gc.kw("omit_serialization_support", 2)
             ctx.ob(R, li.module.rel, f"{li.short}/{recv}: omit_serialization_support as in _generate", a == b,
                    "" if a == b else f"{a} vs {b}", ic.lineno)
             n += 2
@@ -376,6 +438,192 @@ def rule_template_listing(ctx, px):
                "the listing is filtered in a way the analyser cannot relate to the templates (stems: %s)" % sorted(stems), f.node.lineno)
 
 
+LOADERS_MOD = "nunavut.jinja.loaders"
+_INJ_CALLS = ("str", "Path", "pathlib.Path", "pathlib.PurePath", "PurePath", "pathlib.PurePosixPath")
+_INJ_METHODS = ("as_posix", "resolve", "absolute", "relative_to", "with_suffix")
+
+
+def _mentions(e, var):
+    return any(isinstance(n, ast.Name) and n.id == var for n in ast.walk(e))
+
+
+def _injective(e, var):
+    """is `e` an injective image of the loop variable `var` (distinct files stay distinct)?  The file itself, its string, its
+    path below a fixed base, its path relative to the search directory; not its base name, stem, suffix or parent."""
+    if isinstance(e, ast.Name):
+        return e.id == var
+    if isinstance(e, ast.Call):
+        fn = ast.unparse(e.func)
+        if fn in _INJ_CALLS and len(e.args) == 1 and not e.keywords:
+            return _injective(e.args[0], var)
+        if isinstance(e.func, ast.Attribute) and e.func.attr in _INJ_METHODS and not any(_mentions(a, var) for a in e.args):
+            return _injective(e.func.value, var)
+        if fn in ("os.path.join", "posixpath.join") and e.args and not any(_mentions(a, var) for a in e.args[:-1]):
+            return _injective(e.args[-1], var)
+        return False
+    if isinstance(e, ast.BinOp) and isinstance(e.op, ast.Div) and not _mentions(e.left, var):
+        return _injective(e.right, var)
+    if isinstance(e, ast.Tuple):
+        return any(_injective(x, var) for x in e.elts)
+    return False
+
+
+def rule_loader_enumeration(ctx, px):
+    R = "R-C08-LOADER-ENUM"
+    ctx.rule(
+        R,
+        "DSDLTemplateLoader.get_templates (what --list-inputs prints) accumulates, unconditionally, every file of a recursive glob "
+        "over every file-system search path and every template the package loader lists, and the accumulation is injective in "
+        "the file (a collection keyed by base name / stem loses same-named templates of different sub-directories); "
+        "SupportGenerator.generate_all reads exactly the resources SupportGenerator.get_templates lists",
+    )
+    f = px.func(LOADERS_MOD, "DSDLTemplateLoader.get_templates")
+    rets = [r for r in ast.walk(f.node) if isinstance(r, ast.Return) and r.value is not None]
+    if not rets:
+        raise AnalysisError("anchor missing: return of DSDLTemplateLoader.get_templates")
+    # the returned collection
+    coll = None
+    rv = rets[-1].value
+    assigned = {t.id for n in ast.walk(f.node) if isinstance(n, (ast.Assign, ast.AnnAssign)) for t in (n.targets if isinstance(n, ast.Assign) else [n.target])
+                if isinstance(t, ast.Name)}
+    for n in ast.walk(rv):
+        if isinstance(n, ast.Name) and n.id in assigned:
+            coll = n.id
+            break
+    lossy_ret = isinstance(rv, ast.Subscript) or any(isinstance(n, ast.Call) and ast.unparse(n.func) in ("next", "min", "max") for n in ast.walk(rv))
+    ctx.ob(R, f.module.rel, f"{f.short} :: returns the whole accumulated collection `{coll}`", coll is not None and not lossy_ret and len(rets) == 1,
+           "" if coll is not None and not lossy_ret and len(rets) == 1 else f"`return {ast.unparse(rv)}` / {len(rets)} returns", rets[-1].lineno)
+    # collections that are poured into the returned one (coll.update(other) / coll.update(other.values()))
+    colls = {coll}
+    for _ in range(2):
+        for n in ast.walk(f.node):
+            if isinstance(n, ast.Call) and isinstance(n.func, ast.Attribute) and n.func.attr in ("update", "extend") and isinstance(n.func.value, ast.Name) \
+                    and n.func.value.id in colls and len(n.args) == 1:
+                a = n.args[0]
+                if isinstance(a, ast.Call) and isinstance(a.func, ast.Attribute) and a.func.attr == "values" and not a.args:
+                    a = a.func.value
+                if isinstance(a, ast.Name) and a.id in assigned:
+                    colls.add(a.id)
+    for n in ast.walk(rv):
+        if isinstance(n, ast.Name) and n.id in assigned:
+            colls.add(n.id)
+    sources = {"fs": 0, "package": 0}
+    pm = pyfront.parent_map(f.node)
+    guards_by_stmt = {id(st): g for st, g in pyfront.walk_guarded(f.node.body)}
+
+    def classify(loop_iter, outer_loops):
+        it = pyfront.subst_locals(f.node, loop_iter)
+        txt = ast.unparse(it)
+        for c in ast.walk(it):
+            if isinstance(c, ast.Call) and isinstance(c.func, ast.Attribute) and c.func.attr in ("glob", "rglob"):
+                pat = ast.unparse(pyfront.subst_locals(f.node, c.args[0])) if c.args else ""
+                recursive = c.func.attr == "rglob" or "**/" in pat
+                over_dirs = any("searchpath" in ast.unparse(pyfront.subst_locals(f.node, ol.iter)) for ol in outer_loops)
+                by_suffix = "TEMPLATE_SUFFIX" in pat or ".j2" in pat
+                return "fs", recursive and over_dirs and by_suffix, f"glob pattern {pat}, over searchpath: {over_dirs}"
+        if "_package_loader.list_templates()" in txt:
+            return "package", True, ""
+        return None, True, ""
+
+    def outer_loops(node):
+        outer, cur = [], node
+        while id(cur) in pm:
+            cur = pm[id(cur)]
+            if isinstance(cur, ast.For):
+                outer.append(cur)
+        return outer
+
+    def judge(kind, var, st, g, key, val, extra_conds):
+        terms = pyfront.guard_terms(g) + [(c, True) for c in extra_conds]
+        # conditions that only test for the data source being configured sit outside the loop; inside, only a suffix test may filter
+        only_suffix = all("TEMPLATE_SUFFIX" in e or "suffix" in e for e, _p in terms)
+        val_n, key_n = pyfront.subst_locals(f.node, val), (pyfront.subst_locals(f.node, key) if key is not None else None)
+        ok = _injective(val_n, var) and (key_n is None or _injective(key_n, var)) and only_suffix
+        why = ""
+        if not ok:
+            why = (f"keyed by `{ast.unparse(key_n)}`: templates of the same key in different sub-directories collapse into one entry; a loaded template is not listed"
+                   if key_n is not None and not _injective(key_n, var) else
+                   (f"added under the condition {terms}" if not only_suffix else f"element `{ast.unparse(val_n)}` is not the file itself"))
+        ctx.ob(R, f.module.rel, f"{f.short} :: {kind} accumulation `{ast.unparse(st)[:60]}` keeps distinct files distinct", ok, why, st.lineno)
+
+    # form A: for <var> in <source>: <coll>.add(<image of var>)
+    for loop in [n for n in ast.walk(f.node) if isinstance(n, ast.For) and isinstance(n.target, ast.Name)]:
+        kind, ok_src, why = classify(loop.iter, outer_loops(loop))
+        if kind is None:
+            continue
+        sources[kind] += 1
+        var = loop.target.id
+        ctx.ob(R, f.module.rel, f"{f.short} :: {kind} templates are enumerated completely", ok_src, why, loop.lineno)
+        accs = []
+        for st, g in pyfront.walk_guarded(loop.body):
+            for c in pyfront.expr_calls(st):
+                if isinstance(c.func, ast.Attribute) and isinstance(c.func.value, ast.Name) and c.func.value.id in colls:
+                    if c.func.attr in ("add", "append") and len(c.args) == 1:
+                        accs.append((st, g, None, c.args[0]))
+                    elif c.func.attr == "setdefault" and len(c.args) == 2:
+                        accs.append((st, g, c.args[0], c.args[1]))
+            if isinstance(st, ast.Assign) and isinstance(st.targets[0], ast.Subscript) and isinstance(st.targets[0].value, ast.Name) and st.targets[0].value.id in colls:
+                accs.append((st, g, st.targets[0].slice, st.value))
+        ok = bool(accs)
+        ctx.ob(R, f.module.rel, f"{f.short} :: every {kind} template is added to `{coll}`", ok, "" if ok else "no accumulation into the returned collection", loop.lineno)
+        for st, g, key, val in accs:
+            judge(kind, var, st, g, key, val, [])
+    # form B: <coll>.update(<source or comprehension over it>)  /  <coll> |= ...  /  <coll> += ...
+    for st in [n for n in ast.walk(f.node) if isinstance(n, (ast.Expr, ast.AugAssign))]:
+        bulk = None
+        if isinstance(st, ast.Expr) and isinstance(st.value, ast.Call) and isinstance(st.value.func, ast.Attribute) and st.value.func.attr in ("update", "extend") \
+                and isinstance(st.value.func.value, ast.Name) and st.value.func.value.id in colls and len(st.value.args) == 1:
+            bulk = st.value.args[0]
+        elif isinstance(st, ast.AugAssign) and isinstance(st.target, ast.Name) and st.target.id in colls and isinstance(st.op, (ast.BitOr, ast.Add)):
+            bulk = st.value
+        if bulk is None:
+            continue
+        while isinstance(bulk, ast.Call) and ast.unparse(bulk.func) in ("set", "list", "sorted", "tuple", "frozenset") and len(bulk.args) == 1:
+            bulk = bulk.args[0]
+        if isinstance(bulk, (ast.GeneratorExp, ast.ListComp, ast.SetComp)) and len(bulk.generators) == 1 and isinstance(bulk.generators[0].target, ast.Name):
+            gen = bulk.generators[0]
+            it, var, elt, key, conds = gen.iter, gen.target.id, bulk.elt, None, [ast.unparse(c) for c in gen.ifs]
+        elif isinstance(bulk, ast.DictComp) and len(bulk.generators) == 1 and isinstance(bulk.generators[0].target, ast.Name):
+            gen = bulk.generators[0]
+            it, var, elt, key, conds = gen.iter, gen.target.id, bulk.value, bulk.key, [ast.unparse(c) for c in gen.ifs]
+        else:
+            it, var, elt, key, conds = bulk, "_each", ast.Name(id="_each", ctx=ast.Load()), None, []
+        kind, ok_src, why = classify(it, outer_loops(st))
+        if kind is None:
+            continue
+        sources[kind] += 1
+        ctx.ob(R, f.module.rel, f"{f.short} :: {kind} templates are enumerated completely", ok_src, why, st.lineno)
+        ctx.ob(R, f.module.rel, f"{f.short} :: every {kind} template is added to `{coll}`", True, "bulk update", st.lineno)
+        g = pyfront.guards_of(f.node, st.value) or ()
+        # the guards of the statement outside any loop are data-source availability tests; only the loop-internal ones filter files
+        inner = tuple(x for x in g if any(_mentions(x[0], ol.target.id) for ol in outer_loops(st) if isinstance(ol.target, ast.Name)))
+        judge(kind, var, st, inner, key, elt, conds)
+    for kind, cnt in sources.items():
+        ctx.ob(R, f.module.rel, f"{f.short} :: a loop enumerates the {kind} loader's templates", cnt >= 1, "" if cnt else "source not enumerated any more", f.node.lineno)
+    # the suffix filter only filters by suffix
+    flt = px.func(LOADERS_MOD, "DSDLTemplateLoader._filter_template_list_by_suffix")
+    conds = []
+    for n in ast.walk(flt.node):
+        if isinstance(n, (ast.ListComp, ast.GeneratorExp, ast.SetComp)):
+            for gen in n.generators:
+                conds += [ast.unparse(c) for c in gen.ifs]
+        if isinstance(n, ast.If):
+            conds.append(ast.unparse(n.test))
+        if isinstance(n, ast.Call) and ast.unparse(n.func) == "filter" and n.args:
+            conds.append(ast.unparse(n.args[0]))
+    ok = bool(conds) and all("TEMPLATE_SUFFIX" in c or "suffix" in c.lower() for c in conds)
+    ctx.ob(R, flt.module.rel, f"{flt.short} :: filters by the template suffix only", ok, f"{conds}", flt.node.lineno)
+    # support generator: generation iterates what the listing returns
+    sg = px.func(GEN_MOD, "SupportGenerator.generate_all")
+    omit = "omit_serialization_support"
+    loops = [n for n in ast.walk(sg.node) if isinstance(n, ast.For)]
+    its = [ast.unparse(pyfront.subst_locals(sg.node, n.iter)) for n in loops]
+    reads = [i for i in its if "get_templates" in i or "_get_templates_by_support_type" in i or "get_support_files" in i]
+    ok = bool(reads) and all(i in (f"self.get_templates({omit})", f"self.get_templates({omit}={omit})") for i in reads)
+    ctx.ob(R, sg.module.rel, f"{sg.short} :: support files read = self.get_templates({omit})", ok,
+           "" if ok else f"generation enumerates {reads}: the listing and the run can differ", sg.node.lineno)
+
+
 def rule_no_bytecode_cache(ctx, px):
     R = "R-C08-NO-CACHE"
     ctx.rule(R, "the Jinja environment is created without a bytecode cache (loading templates must not write to disk)")
@@ -413,4 +661,5 @@ def run(ctx):
     rule_list_sibling(ctx, px)
     rule_input_closure(ctx, px)
     rule_template_listing(ctx, px)
+    rule_loader_enumeration(ctx, px)
     rule_no_bytecode_cache(ctx, px)
